@@ -13,7 +13,8 @@
 From AV Require Import Base.Prelude Gen.ReaderPrims Model.Reader Model.ReaderExt Proofs.ReaderProofs
   Model.TableLayout Gen.TableLayouts Model.Tables Model.Cff
   Proofs.TableLayoutProofs Proofs.RecordProofs Proofs.TableProofs Proofs.ArrayTableProofs Proofs.CffProofs
-  Proofs.RefusalProofs Proofs.NameProofs Proofs.GlyphProofs.
+  Proofs.RefusalProofs Proofs.NameProofs Proofs.GlyphProofs
+  Gen.CffDictTables Model.CffDict Proofs.CffDictProofs.
 Open Scope Z_scope.
 
 (* ===== 1. the generic theorem: any straight-line reader/writer pair that passes `compat` *)
@@ -263,13 +264,133 @@ Theorem C15_glyph_deltas_invert : forall xs prev, undeltas prev (deltas prev xs)
 Proof. exact undeltas_deltas. Qed.
 Print Assumptions C15_glyph_deltas_invert.
 
+(* ===== CFF DICTs (Model/CffDict.v).  Vocabulary.  A dict is a list of (operator, operand list); an
+   operator is its `as u16` code; operands are OInt / OOff (i32) and OReal (raw nibble bytes).
+   `dict_read c max` is Dict::read_dep (Op::read + Operator::try_from + integer_to_offset + the operand
+   limit), `dict_write defs d delta` the bytes of Dict::write_dep for the default table `defs`.
+   `operand_ok` : an i32, or a real whose first 0xF nibble is in its last byte (what
+   read_until_nibble returns).  `entry_wf max (op, ops)` : `op` is an operator TryFrom knows, the
+   operands are operand_ok and at most `max`.  `entry_readback (op, ops)` : what the reader makes of the
+   written entry — offsets come back as integers and integer_to_offset re-types them.
+   `entry_normal` : entry_wf and entry_readback e = e ("Offset exactly where integer_to_offset puts it");
+   `dict_normal max d` : every entry is.  `elide_defaults defs d` : d without the entries whose
+   operand list EQUALS the operator's default list.  All statements hold for every default table
+   and every operand limit, hence for the six DICT kinds of the current source. *)
+
+(* round trip, no delta: for EVERY readable-normal dict, of any length *)
+Theorem C15_dict_roundtrip : forall defs maxo d,
+  dict_normal maxo d -> len (dict_write defs d []) < USIZE ->
+  dict_read (table_ctxt (dict_write defs d [])) maxo = Ok (elide_defaults defs d).
+Proof. exact dict_roundtrip. Qed.
+Print Assumptions C15_dict_roundtrip.
+
+(* the normalisation is exactly "operands equal the default list": kept iff not equal, order kept
+   (elide_defaults is a filter); equality of operand lists is equality — length and kinds included *)
+Theorem C15_dict_elision_exact : forall defs d op ops,
+  In (op, ops) (elide_defaults defs d) <-> In (op, ops) d /\ assoc op defs <> Some ops.
+Proof. exact elide_defaults_spec. Qed.
+Print Assumptions C15_dict_elision_exact.
+
+Theorem C15_dict_default_test_is_equality : forall defs op ops,
+  is_default defs op ops = true <-> assoc op defs = Some ops.
+Proof. exact is_default_spec. Qed.
+Print Assumptions C15_dict_default_test_is_equality.
+
+(* with a delta: what is read back is the entry_readback of what was written; entries named in the delta
+   are written with the delta's operands and never elided, the others unless exactly default *)
+Theorem C15_dict_roundtrip_delta : forall defs maxo d delta,
+  Forall (entry_wf maxo) (dict_written defs d delta) -> len (dict_write defs d delta) < USIZE ->
+  dict_read (table_ctxt (dict_write defs d delta)) maxo = Ok (dict_expected defs d delta).
+Proof. exact dict_roundtrip_delta. Qed.
+Print Assumptions C15_dict_roundtrip_delta.
+
+Theorem C15_dict_delta_entries : forall defs d delta,
+  (forall op ops dops, In (op, ops) d -> delta_get delta op = Some dops -> In (op, dops) (dict_written defs d delta)) /\
+  (forall op ops, In (op, ops) d -> delta_get delta op = None -> is_default defs op ops = false ->
+                  In (op, ops) (dict_written defs d delta)) /\
+  (forall op wops, In (op, wops) (dict_written defs d delta) ->
+                   (exists ops, In (op, ops) d /\ delta_get delta op = Some wops) \/
+                   (In (op, wops) d /\ delta_get delta op = None /\ is_default defs op wops = false)) /\
+  (length (dict_written defs d delta) <= length d)%nat.
+Proof. exact dict_written_spec. Qed.
+Print Assumptions C15_dict_delta_entries.
+
+(* stability: writing what was read back reproduces the bytes *)
+Theorem C15_dict_write_read_write : forall defs maxo d,
+  dict_normal maxo d -> len (dict_write defs d []) < USIZE ->
+  exists d', dict_read (table_ctxt (dict_write defs d [])) maxo = Ok d' /\
+             dict_write defs d' [] = dict_write defs d [].
+Proof. exact dict_write_read_write. Qed.
+Print Assumptions C15_dict_write_read_write.
+
+(* whatever Dict::read_dep accepts is readable-normal ... *)
+Theorem C15_dict_read_is_normal : forall maxo b d,
+  0 <= maxo -> bytes_ok b = true -> len b < USIZE ->
+  dict_read (table_ctxt b) maxo = Ok d -> dict_normal maxo d.
+Proof. exact dict_read_normal. Qed.
+Print Assumptions C15_dict_read_is_normal.
+
+(* ... hence parse-write-parse holds for ARBITRARY parsable bytes: the second parse is the first
+   minus its exactly-default entries, writing it again gives the same bytes, parsing those the same dict *)
+Theorem C15_dict_parse_write_parse : forall defs maxo b d,
+  0 <= maxo -> bytes_ok b = true -> len b < USIZE ->
+  dict_read (table_ctxt b) maxo = Ok d -> len (dict_write defs d []) < USIZE ->
+  dict_read (table_ctxt (dict_write defs d [])) maxo = Ok (elide_defaults defs d) /\
+  dict_write defs (elide_defaults defs d) [] = dict_write defs d [] /\
+  dict_read (table_ctxt (dict_write defs (elide_defaults defs d) [])) maxo = Ok (elide_defaults defs d).
+Proof. exact dict_parse_write_parse. Qed.
+Print Assumptions C15_dict_parse_write_parse.
+
+(* the length returned by write_dep is the number of bytes written, whatever was in the buffer before *)
+Theorem C15_dict_written_length : forall written defs d delta b n,
+  dict_write_dep written defs d delta = Ok (b, n) -> b = dict_write defs d delta /\ n = len b.
+Proof. exact dict_write_dep_length. Qed.
+Print Assumptions C15_dict_written_length.
+
+(* the reader is total on byte strings: Ok or Err, never a panic (the `.unwrap()` on one-byte
+   operators cannot fail on the current TryFrom table; the model's fuel always suffices) *)
+Theorem C15_dict_read_never_panics : forall maxo b, bytes_ok b = true -> len b < USIZE ->
+  definite (dict_read (table_ctxt b) maxo).
+Proof. exact dict_read_definite. Qed.
+Print Assumptions C15_dict_read_never_panics.
+
+(* obligations on the current source: every operator of the enum survives write -> read and TryFrom
+   accepts exactly the enum; the default tables, the offset-carrying operators and the limits are the
+   declared ones (a changed default value, a dropped offset operator, ... fails here) *)
+Theorem C15_dict_operators_agree :
+  Forall operator_ok operator_enum /\
+  (forall v, (exists o, operator_try_from v = Some o) <-> In v operator_enum).
+Proof. exact operators_agree. Qed.
+Print Assumptions C15_dict_operators_agree.
+
+Theorem C15_dict_tables_declared :
+  top_dict_default =
+    [(3073, [OInt 0]); (3074, [OInt 0]); (3075, [OInt (-100)]); (3076, [OInt 50]); (3077, [OInt 0]);
+     (3078, [OInt 2]); (3079, font_matrix_default); (5, [OInt 0; OInt 0; OInt 0; OInt 0]); (3080, [OInt 0]);
+     (15, [OOff 0]); (16, [OOff 0]); (3103, [OInt 0]); (3104, [OInt 0]); (3105, [OInt 0]); (3106, [OInt 8720])] /\
+  font_dict_default = [] /\
+  private_dict_default =
+    [(3081, [OReal [10; 3; 150; 37; 255]]); (3082, [OInt 7]); (3083, [OInt 1]); (3086, [OInt 0]); (3089, [OInt 0]);
+     (3090, [OReal [10; 6; 255]]); (3091, [OInt 0]); (3080, [OInt 0]); (20, [OInt 0]); (21, [OInt 0])] /\
+  cff2_top_dict_default = [(3079, font_matrix_default)] /\
+  cff2_font_dict_default = [] /\
+  cff2_private_dict_default =
+    [(3081, [OReal [10; 3; 150; 37; 255]]); (3082, [OInt 7]); (3083, [OInt 1]); (3089, [OInt 0]);
+     (3090, [OReal [10; 6; 255]]); (22, [OInt 0])] /\
+  ito_guard_op = 16 /\ ito_guard_min = 1 /\ ito_single_ops = [15; 17; 19; 3108; 3109; 24] /\ ito_pair_ops = [18] /\
+  cff_max_operands = 48 /\ cff2_max_operands = 513 /\ operator_wide_above = 255 /\ end_of_float_flag = 15 /\
+  cffw_real_b0 = cffr_real_b0.
+Proof. exact dict_tables_declared. Qed.
+Print Assumptions C15_dict_tables_declared.
+
 (* ===== the property as a whole: PARTIAL.  The conjunction below is what is proved of "read is the
    inverse of write for every table the library can write": straight-line layouts (head, hhea, maxp
    subtable, hmtx/name/directory records, bounding box, post header, OS/2 pieces), maxp, OS/2, hmtx,
-   loca (owned writer), the owned name table, simple glyphs, CFF integer/offset operands and INDEX.
-   Missing (see docs/C15.md): cmap subtables, cvt, composite glyphs, CFF DICT/charset/encoding/
-   FDSelect/real operands, CFF2, item variation stores, the borrowed name writer, and parse-write-parse
-   for arbitrary parsable bytes other than OS/2. *)
+   loca (owned writer), the owned name table, simple glyphs, CFF integer/offset operands, INDEX and
+   DICTs (all six kinds, real operands and deltas included, and parse-write-parse on arbitrary bytes).
+   Missing (see docs/C15.md): cmap subtables, cvt, composite glyphs, CFF charset/encoding/FDSelect,
+   the CFF/CFF2 table assembly, item variation stores, the borrowed name writer, and parse-write-parse
+   for arbitrary parsable bytes other than OS/2 and DICTs. *)
 Theorem C15_read_inverts_write_partial :
   ltac:(let t := type of layout_roundtrip in exact t) /\
   ltac:(let t := type of maxp_roundtrip in exact t) /\
@@ -281,12 +402,14 @@ Theorem C15_read_inverts_write_partial :
   ltac:(let t := type of simple_glyph_roundtrip in exact t) /\
   ltac:(let t := type of operand_int_roundtrip in exact t) /\
   ltac:(let t := type of operand_offset_roundtrip in exact t) /\
-  ltac:(let t := type of index_roundtrip in exact t).
+  ltac:(let t := type of index_roundtrip in exact t) /\
+  ltac:(let t := type of dict_roundtrip in exact t) /\
+  ltac:(let t := type of dict_parse_write_parse in exact t).
 Proof.
   exact (conj layout_roundtrip (conj maxp_roundtrip (conj os2_roundtrip (conj hmtx_roundtrip
         (conj loca_short_roundtrip (conj loca_long_roundtrip (conj name_owned_roundtrip
         (conj simple_glyph_roundtrip (conj operand_int_roundtrip (conj operand_offset_roundtrip
-        index_roundtrip)))))))))).
+        (conj index_roundtrip (conj dict_roundtrip dict_parse_write_parse)))))))))))).
 Qed.
 Print Assumptions C15_read_inverts_write_partial.
 
@@ -367,3 +490,63 @@ Example glyph_example :
   | _ => False
   end.
 Proof. vm_compute. reflexivity. Qed.
+
+(* ----- CFF DICTs *)
+(* BlueScale with NO operands (`0c 09`, as left behind by `blend` in a CFF2 Private DICT) is not the
+   default [0.039625]: it is kept, written and read back; BlueScale with its default is dropped *)
+Example dict_bluescale_empty_kept :
+  elide_defaults private_dict_default [(3081, [])] = [(3081, [])] /\
+  dict_write private_dict_default [(3081, [])] [] = [12; 9] /\
+  dict_read (table_ctxt [12; 9]) cff_max_operands = Ok [(3081, [])] /\
+  dict_write cff2_private_dict_default [(23, [OInt 1; OInt 2; OInt 1]); (3081, [])] [] = [140; 141; 140; 23; 12; 9].
+Proof. vm_compute. repeat split; reflexivity. Qed.
+Example dict_bluescale_default_dropped :
+  elide_defaults private_dict_default [(3081, [OReal [10; 3; 150; 37; 255]]); (3082, [OInt 8])] = [(3082, [OInt 8])] /\
+  dict_write private_dict_default [(3081, [OReal [10; 3; 150; 37; 255]])] [] = [].
+Proof. vm_compute. split; reflexivity. Qed.
+(* proper prefixes and extensions of a default are not the default *)
+Example dict_default_prefix_and_extension_kept :
+  elide_defaults top_dict_default
+    [(5, [OInt 0; OInt 0; OInt 0]); (5, [OInt 0; OInt 0; OInt 0; OInt 0]); (5, [OInt 0; OInt 0; OInt 0; OInt 0; OInt 0]);
+     (3075, [OInt (-100)]); (3075, [OInt (-101)]); (16, [OInt 0]); (15, [OOff 0])]
+  = [(5, [OInt 0; OInt 0; OInt 0]); (5, [OInt 0; OInt 0; OInt 0; OInt 0; OInt 0]); (3075, [OInt (-101)]); (16, [OInt 0])].
+Proof. vm_compute. reflexivity. Qed.
+
+Definition dict_ex : dict :=
+  [(3081, []); (15, [OOff 5]); (18, [OOff 10; OOff 2000]); (16, [OInt 1]); (16, [OOff 2]);
+   (3079, [OReal [10; 0; 31]; OInt 0; OInt 0; OReal [10; 0; 47]; OInt (-70000); OInt 1131]);
+   (3073, [OInt 0]); (6, [OInt 108; OInt (-108); OInt 32768])].
+Example dict_example_normal : dict_normal cff_max_operands dict_ex.
+Proof.
+  unfold dict_normal, dict_ex.
+  repeat (apply Forall_cons;
+    [split; [split; [vm_compute; reflexivity|split; [|vm_compute; discriminate]]|vm_compute; reflexivity]|]);
+    try apply Forall_nil;
+    repeat (apply Forall_cons; [cbn [operand_ok]; try (unfold i32_ok; lia); try (split; vm_compute; reflexivity)|]);
+    apply Forall_nil.
+Qed.
+Example dict_example_roundtrip :
+  dict_read (table_ctxt (dict_write top_dict_default dict_ex [])) cff_max_operands
+  = Ok (elide_defaults top_dict_default dict_ex) /\
+  length (elide_defaults top_dict_default dict_ex) = 7%nat.
+Proof. vm_compute. split; reflexivity. Qed.
+(* the hypothesis is needed: an Integer where the reader would have produced an Offset comes back as Offset *)
+Example dict_non_normal :
+  dict_read (table_ctxt (dict_write top_dict_default [(15, [OInt 5])] [])) cff_max_operands = Ok [(15, [OOff 5])].
+Proof. vm_compute. reflexivity. Qed.
+(* a delta entry replaces the operands and defeats the elision (Charset 0 is the default) *)
+Example dict_delta_example :
+  dict_write top_dict_default [(15, [OOff 0]); (17, [OOff 7])] [] = [29; 0; 0; 0; 7; 17] /\
+  dict_write top_dict_default [(15, [OOff 0]); (17, [OOff 7])] [(15, [OOff 300])] = [29; 0; 0; 1; 44; 15; 29; 0; 0; 0; 7; 17] /\
+  dict_read (table_ctxt (dict_write top_dict_default [(15, [OOff 0]); (17, [OOff 7])] [(15, [OOff 300])])) cff_max_operands
+  = Ok [(15, [OOff 300]); (17, [OOff 7])] /\
+  dict_write_dep 3 top_dict_default [(15, [OOff 0]); (17, [OOff 7])] [(15, [OOff 300])] = Ok ([29; 0; 0; 1; 44; 15; 29; 0; 0; 0; 7; 17], 12).
+Proof. vm_compute. repeat split; reflexivity. Qed.
+(* the operand limit: 48 operands pass, the 49th is LimitExceeded; reserved bytes are BadValue *)
+Example dict_limits :
+  dict_read (table_ctxt (repeat 139 48 ++ [6])) cff_max_operands = Ok [(6, repeat (OInt 0) 48)] /\
+  dict_read (table_ctxt (repeat 139 49 ++ [6])) cff_max_operands = Err LimitExceeded /\
+  dict_read (table_ctxt [31]) cff_max_operands = Err BadValue /\
+  dict_read (table_ctxt [12; 15]) cff_max_operands = Err BadValue /\
+  dict_read (table_ctxt [30; 18; 52]) cff_max_operands = Err Eof.
+Proof. vm_compute. repeat split; reflexivity. Qed.
